@@ -1,10 +1,28 @@
 #!/venv/bin/python
-"""Re-execute one replay file (written by a check on violation) against the real code and
-re-validate it with TLC:  replay.py out/replay/<id>/<n>.json"""
+"""Re-judge one replay file written by a check:   replay.py out/replay/<Cxx>/<n>.json
+Prints the recorded scenario/trace record and lets TLC evaluate the property clauses on it again
+(the record holds the inputs and the projected outputs of the real call)."""
 import json
 import sys
 from pathlib import Path
 
 sys.path.insert(0, str(Path(__file__).resolve().parent))
-v = json.loads(Path(sys.argv[1]).read_text())
-print(json.dumps(v, indent=1)[:6000])
+from harness.tlc import validate_traces  # noqa: E402
+
+TRACE = {"C01": "OsuTrace", "C02": "SMTrace", "C03": "SMTrace", "C04": "BMSTrace", "C05": "BMSTrace", "C06": "QuaTrace",
+         "C07": "O2JTrace", "C08": "ConvertTrace", "C09": "CrossTrace", "C10": "TempoTrace", "C11": "ReseatTrace",
+         "C12": "StackTrace", "C13": "RateTrace", "C14": "FrameTrace", "C15": "PermTrace", "C16": "ListsTrace",
+         "C17": "FullLNTrace", "C18": "HitsoundTrace", "C19": "SpeedTrace", "C20": "PatternTrace"}
+
+p = Path(sys.argv[1])
+v = json.loads(p.read_text())
+pid = p.parent.name
+print(json.dumps({k: v[k] for k in v if k != "rec"}, indent=1))
+rec = v.get("rec")
+if not rec:
+    sys.exit(0)
+print(json.dumps(rec, indent=1)[:8000])
+env = {"VERIF_PROP": pid} if pid in ("C14", "C16") else None
+rej, n, _ = validate_traces(TRACE[pid], TRACE[pid], [rec], shards=1, tag=f"replay-{pid}", env=env)
+print("TLC verdict:", "REJECTED clauses=" + ",".join(rej[0]["failing"]) if rej else "accepted")
+sys.exit(1 if rej else 0)
